@@ -2,12 +2,12 @@ package c11
 
 import (
 	"encoding/json"
-	"strconv"
 	"fmt"
 	"net"
 	"os"
 	"path/filepath"
 	"sort"
+	"strconv"
 	"strings"
 	"sync"
 	"sync/atomic"
@@ -30,12 +30,12 @@ const part = "prop"
 
 // Fixed process parameters of every case.
 const (
-	drainTimeS     = 4                      // mosn start --drain-time-s: how long a graceful stop waits for active requests
-	gracefulMs     = 500                    // servers[].graceful_timeout: hot-upgrade connection hand-over happens 1x..2x this after the old server stopped its connections
-	upgradeSleep   = 3 * time.Second        // fixed pause of the old server between handing over the listeners and shutting down (reconfigure.go)
-	connReadTO     = 15 * time.Second       // types.DefaultConnReadTimeout: the old server lingers 2*graceful + 2*this before it exits
-	startDeadline  = 45 * time.Second       // infra deadlines (inconclusive when hit)
-	exitBand       = 30 * time.Second       // added to every exit-time bound
+	drainTimeS     = 4                       // mosn start --drain-time-s: how long a graceful stop waits for active requests
+	gracefulMs     = 500                     // servers[].graceful_timeout: hot-upgrade connection hand-over happens 1x..2x this after the old server stopped its connections
+	upgradeSleep   = 3 * time.Second         // fixed pause of the old server between handing over the listeners and shutting down (reconfigure.go)
+	connReadTO     = 15 * time.Second        // types.DefaultConnReadTimeout: the old server lingers 2*graceful + 2*this before it exits
+	startDeadline  = 45 * time.Second        // infra deadlines (inconclusive when hit)
+	exitBand       = 30 * time.Second        // added to every exit-time bound
 	listenCloseCap = 2500 * time.Millisecond // SIGTERM: the listener must be closed this long after the signal while a request is still draining
 )
 
@@ -60,19 +60,19 @@ func clientSpec(cs Case, id, seq int) (proto string, ka bool) {
 
 // Case is one generated scenario.
 type Case struct {
-	Signal    string    `json:"signal"` // SIGTERM | SIGHUP
-	Proto     string    `json:"proto"`  // Http1 | Http2 | bolt
-	Phase     string    `json:"phase"`  // where the designated request is when the signal is sent
-	KeepAlive bool      `json:"keepalive"` // the designated client keeps its connection (else: a new connection per request)
-	Warm      int       `json:"warm"`     // requests of client 0 before the designated one
-	ExtraMs   int       `json:"extra_ms"` // pause between reaching the phase and sending the signal
-	PostMs    int       `json:"post_ms"`  // pause between the signal and letting the designated request go on
-	DReq      int       `json:"designated_req_size"`
-	DResp     int       `json:"designated_resp_size"`
-	Seed      uint64    `json:"seed"` // expanded per client: sizes, upstream delays and think times of all other requests
-	Quiet     bool      `json:"quiet_after_signal"` // SIGTERM only: the clients start no further requests once the signal is sent
-	Pow2Cuts  bool      `json:"pow2_cuts"`          // SIGHUP only: every bolt frame sent in pieces is cut after 64/128/256 bytes (else every fourth)
-	Holder    string    `json:"holder_proto"`       // SIGTERM only: protocol of one more request that the upstream holds across the signal until every listener refuses connects
+	Signal    string `json:"signal"`    // SIGTERM | SIGHUP
+	Proto     string `json:"proto"`     // Http1 | Http2 | bolt
+	Phase     string `json:"phase"`     // where the designated request is when the signal is sent
+	KeepAlive bool   `json:"keepalive"` // the designated client keeps its connection (else: a new connection per request)
+	Warm      int    `json:"warm"`      // requests of client 0 before the designated one
+	ExtraMs   int    `json:"extra_ms"`  // pause between reaching the phase and sending the signal
+	PostMs    int    `json:"post_ms"`   // pause between the signal and letting the designated request go on
+	DReq      int    `json:"designated_req_size"`
+	DResp     int    `json:"designated_resp_size"`
+	Seed      uint64 `json:"seed"`               // expanded per client: sizes, upstream delays and think times of all other requests
+	Quiet     bool   `json:"quiet_after_signal"` // SIGTERM only: the clients start no further requests once the signal is sent
+	Pow2Cuts  bool   `json:"pow2_cuts"`          // SIGHUP only: every bolt frame sent in pieces is cut after 64/128/256 bytes (else every fourth)
+	Holder    string `json:"holder_proto"`       // SIGTERM only: protocol of one more request that the upstream holds across the signal until every listener refuses connects
 }
 
 var sizeBoundaries = []int{2, 255, 256, 1023, 1024, 4095, 4096, 8192, 16384, 40000}
@@ -146,27 +146,27 @@ func (x *xs) n(k int) int { return int(x.next() % uint64(k)) }
 // ---------------------------------------------------------------- one running case
 
 type run struct {
-	cs      Case
-	no      int64
-	dir     string
-	addrs   map[string]string    // protocol -> listener address
-	ups     map[string]*upstream // protocol -> scripted upstream
-	p       *proc.Proc
-	sig     syscall.Signal
-	t0      time.Time
-	desig   *plan
-	holder  *plan
+	cs       Case
+	no       int64
+	dir      string
+	addrs    map[string]string    // protocol -> listener address
+	ups      map[string]*upstream // protocol -> scripted upstream
+	p        *proc.Proc
+	sig      syscall.Signal
+	t0       time.Time
+	desig    *plan
+	holder   *plan
 	pieceGap time.Duration
 
-	gate      sync.RWMutex
-	signalled bool // under gate
-	tsig      time.Time
-	sigErr    error
-	inflight  int32
-	inflAtSig int32
-	fireOnce  sync.Once
-	fired     chan struct{}
-	split     int32 // bolt clients send frames in pieces (set after SIGHUP)
+	gate        sync.RWMutex
+	signalled   bool // under gate
+	tsig        time.Time
+	sigErr      error
+	inflight    int32
+	inflAtSig   int32
+	fireOnce    sync.Once
+	fired       chan struct{}
+	split       int32 // bolt clients send frames in pieces (set after SIGHUP)
 	phaseMissed int32
 	sigFlag     int32
 
@@ -188,11 +188,18 @@ type probe struct {
 	Answer string `json:"answer,omitempty"`
 }
 
-func (r *run) ms() int64           { return time.Since(r.t0).Milliseconds() }
-func (r *run) isSignalled() bool   { return atomic.LoadInt32(&r.sigFlag) == 1 } // never takes the gate: it is called from inside gated sections
-func (r *run) splitNow() bool      { return atomic.LoadInt32(&r.split) == 1 }
-func (r *run) doneOne()            { atomic.AddInt32(&r.inflight, -1) }
-func (r *run) stopped() bool       { select { case <-r.stop: return true; default: return false } }
+func (r *run) ms() int64         { return time.Since(r.t0).Milliseconds() }
+func (r *run) isSignalled() bool { return atomic.LoadInt32(&r.sigFlag) == 1 } // never takes the gate: it is called from inside gated sections
+func (r *run) splitNow() bool    { return atomic.LoadInt32(&r.split) == 1 }
+func (r *run) doneOne()          { atomic.AddInt32(&r.inflight, -1) }
+func (r *run) stopped() bool {
+	select {
+	case <-r.stop:
+		return true
+	default:
+		return false
+	}
+}
 func (r *run) stopAll()            { r.stopOnce.Do(func() { close(r.stop) }) }
 func (r *run) record(x *result)    { r.mu.Lock(); r.results = append(r.results, x); r.mu.Unlock() }
 func (r *run) recordProbe(p probe) { r.mu.Lock(); r.probes = append(r.probes, p); r.mu.Unlock() }
